@@ -19,6 +19,7 @@ def run(tier, seed):
     chk.count('work_units', len(units))
     for part in pmap(lm.c13_unit, units):
         chk.merge(part)
+    chk.expect('executions', len(units) * 2 ** (min(Ns) - 1))
     chk.assumptions = ["restart points on the dyadic step grid; same Brownian object across chunks"]
     return chk
 
